@@ -18,14 +18,18 @@ MANIFEST = {
                 "row or an error and implements the limit semantics, for all enumerated cases and all interleavings of the "
                 "backend readers; every case (row counts limit-1/limit/limit+1/unlimited x row packet lengths from bytes to "
                 "17 MiB x unsharded/single shard/two shards x text/binary) is executed on the real proxy between fake MySQL "
-                "backends and a client over loopback TCP, and TLC judges each recorded observation against the specification.",
+                "backends and a client over loopback TCP (sharded statements with one, two and four per-shard results, the latter "
+                "two sub-table statements per slice run one after the other), and TLC judges each recorded observation against "
+                "the specification.",
         "design_ref": "DESIGN.md section 5 C39, section 4.1 Protocol",
     },
     "level_note": "Backends are in-process fakes that always produce the scripted rows (no backend faults, no multi-statement "
                   "results, one column); rows of one case all have the same length; limits are small (2..20) so that results "
                   "around the limit stay small, the 16 MiB threshold is the real one; 17 MiB-row cases run in the thorough tier "
-                  "only; the as-coded design variant of the specification is a prediction that is compared with the "
-                  "implementation but never produces a verdict.",
+                  "only; the four-result mode is enumerated for limit 3 and small rows only; the design's terminal state is a "
+                  "prediction that is compared with the implementation (model drift) but never produces a verdict; the design "
+                  "variant with the three defects repaired by 5a26ea1 / 9502c9e / d751f23 is kept in the specification as "
+                  "documentation (constants LimitInclusive / ShardIgnoresMore / LimitPerChunk).",
     "technique": "TLA+ spec + TLC exhaustive check; TLC-enumerated cases executed on the real proxy over loopback; "
                  "recorded observations judged by TLC",
 }
@@ -142,25 +146,23 @@ def run(ctx):
 
     if thorough:
         par = dict(limits=(3, 18, 0), unlim=(0, 1, 4, 18), rowlens=(2, 1027, 1048580, 5592405, 16777215, 16777216, 17825796),
-                   maxbytes=72000000)
+                   maxbytes=72000000, shard4_limit=3, shard4_rowlens=(2, 1027, 1048580))
     else:
         # 16777216-byte rows are their own streaming chunk: limit 3 / 3 rows is the smallest result streamed in three chunks
-        par = dict(limits=(3, 18, 0), unlim=(0, 1, 18), rowlens=(2, 1027, 1048580, 16777216), maxbytes=51000000)
+        par = dict(limits=(3, 18, 0), unlim=(0, 1, 18), rowlens=(2, 1027, 1048580, 16777216), maxbytes=51000000,
+                   shard4_limit=3, shard4_rowlens=(2,))
 
-    # 1. exhaustive check of the intended design against the property (all cases, all reader interleavings)
-    text = _proto.cfg("ResultSpec", _proto.constants(**par), invariants=["RTypeOK", "NoSilentTruncation", "LimitSemantics"],
-                      properties=["RTerminates"])
-    r = ctx.tlc("Protocol", "r_mc.cfg", extra_files={"r_mc.cfg": text}, coverage=True, timeout=1500,
-                workers="auto" if thorough else 4, label="intended delivery design satisfies C39 (exhaustive)")
-    ctx.log("intended design:", r.stats(), "%.1fs" % r.wall)
+    # 1. exhaustive check of the delivery design against the property (all cases, all reader interleavings); the terminal
+    #    states are the cases, with the specification's expectation and the design's prediction.  Since the fix commits
+    #    5a26ea1 / 9502c9e / d751f23 the design as coded is the intended design (all variant switches FALSE).
+    text = _proto.cfg("ResultSpec", _proto.constants(as_coded=False, **par),
+                      invariants=["RTypeOK", "NoSilentTruncation", "LimitSemantics", "EmitResult"], properties=["RTerminates"])
+    r = ctx.tlc("Protocol_gen", "r_mc.cfg", extra_files={"r_mc.cfg": text}, coverage=True, timeout=1500, workers=1,
+                label="delivery design satisfies C39 (exhaustive); cases emitted")
+    ctx.log("delivery design:", r.stats(), "%.1fs" % r.wall)
     zero = [a for a in r.zero_actions if a in ("ReadRow", "ReadEOF", "WriteChunk", "WriteError", "ContinueShardRead", "Merge")]
     if zero:
-        ctx.notes.append("vacuous actions in the intended-design check: %s" % zero)
-
-    # 2. the design as written: its terminal states are the cases, with the specification's expectation and the prediction
-    text = _proto.cfg("ResultSpec", _proto.constants(as_coded=True, **par), invariants=["RTypeOK", "EmitResult"])
-    r = ctx.tlc("Protocol_gen", "r_gen.cfg", extra_files={"r_gen.cfg": text}, workers=1, timeout=1500,
-                label="enumerate cases; as-coded design predictions")
+        ctx.notes.append("vacuous actions in the design check: %s" % zero)
     cases = {}
     for c in r.cases:
         c["id"] = case_id(c)
@@ -176,13 +178,13 @@ def run(ctx):
     predicted_dev = [c["id"] for c in cases if c["pred"]["outcome"] and not (
         (c["expect"] == "error" and c["pred"]["outcome"] == "error") or
         (c["expect"] == "full" and c["pred"]["outcome"] == "complete" and c["pred"]["sent"] == c["total"]))]
-    ctx.log("cases:", len(cases), "of which the as-coded model predicts a deviation:", len(predicted_dev))
+    ctx.log("cases:", len(cases), "of which the design model predicts a deviation:", len(predicted_dev))
     for c in (cases[0], cases[len(cases) // 2], cases[-1]):
         ctx.sample(c)
 
     # 3. G + V on the real proxy
     lines, verdicts, drift, ndev = execute(ctx, cases, "main")
-    ctx.log("executed", len(lines), "cases;", ndev, "deviate from the specification;", len(drift), "differ from the as-coded model")
+    ctx.log("executed", len(lines), "cases;", ndev, "deviate from the specification;", len(drift), "differ from the design model")
     ctx.cov["distinct_nontrivial"] = len({c["id"] for c in cases if nontrivial(c)})
     ctx.cov["rule"] = ("case = (row limit, rows per backend, row packet length, unsharded/single shard/two shards, text/binary) "
                        "enumerated by TLC; non-trivial = some backend produces at least limit rows, or a backend's result exceeds "
